@@ -16,14 +16,14 @@ for m in sorted(glob.glob(os.path.join(ROOT, "seeded", "*", "meta.json"))):
 def run_group(pid):
     out = []
     for sid in groups[pid]:
-        c = subprocess.run([sys.executable, os.path.join(ROOT, "tools", "seedrun.py"), "confirm", sid], capture_output=True, text=True)
-        ok = " confirmed " in c.stdout
-        if not ok:
-            out.append((sid, "NOT-CONFIRMED " + c.stdout.strip()[-300:].replace("\n", " ")))
-            continue
+        # no re-confirmation here: `go test .` of several worktrees in parallel clash on the fixed ports
+        # some root-package tests listen on; a patch that no longer applies is reported as NEEDS-REBASE
         k = subprocess.run([sys.executable, os.path.join(ROOT, "tools", "seedrun.py"), "check", sid], capture_output=True, text=True)
         line = [l for l in k.stdout.splitlines() if l.startswith(sid)]
-        out.append((sid, line[-1][len(sid) + 1:] if line else "no-output " + k.stdout[-200:]))
+        if "patch does not apply" in k.stdout:
+            out.append((sid, "NEEDS-REBASE"))
+        else:
+            out.append((sid, line[-1][len(sid) + 1:] if line else "no-output " + k.stdout[-200:]))
     return pid, out
 with cf.ThreadPoolExecutor(jobs) as ex:
     for pid, out in ex.map(run_group, sorted(groups)):
